@@ -14,6 +14,8 @@ pub mod c13;
 pub mod c14;
 pub mod c15;
 pub mod c16;
+pub mod c17;
+pub mod c18;
 
 pub type RunFn = fn(&Ctx) -> Finish;
 pub type ReplayFn = fn(&mut Local, &serde_json::Value) -> Result<(), String>;
@@ -34,6 +36,8 @@ pub fn registry() -> Vec<(&'static str, RunFn, ReplayFn)> {
         ("C14", c14::run as RunFn, c14::replay as ReplayFn),
         ("C15", c15::run as RunFn, c15::replay as ReplayFn),
         ("C16", c16::run as RunFn, c16::replay as ReplayFn),
+        ("C17", c17::run as RunFn, c17::replay as ReplayFn),
+        ("C18", c18::run as RunFn, c18::replay as ReplayFn),
     ]
 }
 
